@@ -26,14 +26,14 @@ func init() {
 
 // spxProps says which harnesses each property's SPX family explores.
 var spxProps = map[string][]string{
-	"C01": {"S1", "S2"},
-	"C06": {"S4"},
-	"C10": {"S3", "S4"},
-	"C17": {"S1", "S2", "S3", "S4"},
+	"C01": {"S1", "S2", "S9"},
+	"C06": {"S4", "S10"},
+	"C10": {"S3", "S4", "S13"},
+	"C17": {"S1", "S2", "S3", "S4", "S9", "S10", "S13"},
 	"C18": {"S1", "S6"},
 	"C02": {"S5", "S8"},
 	"C07": {"S8"},
-	"C12": {"S5", "S6", "S7", "S8"},
+	"C12": {"S5", "S6", "S7", "S8", "S11"},
 }
 
 func spxScenarioFor(name string) *spxScenario {
@@ -170,7 +170,7 @@ func spxServerRules(x *spxInst, sc *spxScenario, prop string, add func(rule, sha
 	h := x.srv
 	h.Collect()
 	explored := len(h.Out) // frames of the explored phase end here
-	short := sc.Name[:2]
+	short := sc.Name[:strings.Index(sc.Name, "-")]
 
 	// what the environment did
 	finish := map[int]*harness.EnvStep{}
@@ -220,9 +220,24 @@ func spxServerRules(x *spxInst, sc *spxScenario, prop string, add func(rule, sha
 				add("request-not-intact", "", fmt.Sprintf("stream %d: handler saw %s %s body %q", cl.Stream, cl.Req.Method, cl.Req.URI, cl.Req.Body))
 			}
 		}
-		for _, id := range []uint32{3, 5} {
-			if seen[id] != 1 {
-				add("not-dispatched", "", fmt.Sprintf("complete request on stream %d dispatched %d times (dispatched: %v)", id, seen[id], h.DispatchedIDs()))
+		if short == "S9" {
+			// one slot: a request is either dispatched or refused, never both, never neither
+			for _, id := range []uint32{3, 5, 7} {
+				refused := false
+				if so := h.Streams[id]; so != nil {
+					for _, code := range so.Rst {
+						refused = refused || code == cREFUSED
+					}
+				}
+				if refused == (seen[id] == 1) {
+					add("dispatch-xor-refusal", "", fmt.Sprintf("stream %d: dispatched %d times, refused=%v", id, seen[id], refused))
+				}
+			}
+		} else {
+			for _, id := range []uint32{3, 5} {
+				if seen[id] != 1 {
+					add("not-dispatched", "", fmt.Sprintf("complete request on stream %d dispatched %d times (dispatched: %v)", id, seen[id], h.DispatchedIDs()))
+				}
 			}
 		}
 		for idx, st := range finish {
@@ -318,7 +333,27 @@ func spxServerRules(x *spxInst, sc *spxScenario, prop string, add func(rule, sha
 			}
 		}
 	case "C06":
-		// S4: stream 3 starts with a window of 4, the connection with 65535 minus the warm body
+		// S4: stream 3 starts with a window of 4 (S10: 100000), the connection with 65535 minus the warm body
+		if short == "S10" {
+			all := true
+			for _, t := range x.env {
+				for i := range t.Steps {
+					all = all && t.Steps[i].Ran
+				}
+			}
+			if all {
+				for idx, st := range finish {
+					id := h.Calls[idx].Stream
+					if so := h.Streams[id]; so == nil || len(so.Data) != len(st.Resp.Body) || so.EndStream != 1 {
+						n := 0
+						if so != nil {
+							n = len(so.Data)
+						}
+						add("stuck-with-open-windows", "", fmt.Sprintf("every grant was delivered (connection window 65531+70000, stream windows 100000), stream %d has %d of %d body bytes", id, n, len(st.Resp.Body)))
+					}
+				}
+			}
+		}
 		sent := map[uint32]int64{}
 		var connSent int64
 		for i := 0; i < explored; i++ {
@@ -330,6 +365,9 @@ func spxServerRules(x *spxInst, sc *spxScenario, prop string, add func(rule, sha
 			sent[f.Stream] += n
 			connSent += n
 			allowS, allowC := int64(4), int64(65535-4)
+			if short == "S10" {
+				allowS = 100000
+			}
 			for _, g := range grants {
 				if g.at <= h.OutOffset[i] {
 					if g.stream == f.Stream {
@@ -408,7 +446,7 @@ func notEnv(live []string) []string {
 func spxClientRules(x *spxInst, sc *spxScenario, prop string, add func(rule, shape, detail string)) {
 	h := x.cl
 	h.Collect()
-	short := sc.Name[:2]
+	short := sc.Name[:strings.Index(sc.Name, "-")]
 	srv := h.Conns[0]
 	phase := srv.Out[x.mark:] // what the client wrote during the explored phase
 
